@@ -46,10 +46,27 @@ def rebind(module_name, attr, value):
       setattr(mod, attr, old)
 
 
+def np_modules():
+  """NP_MODULES plus every other loaded library module of the working tree
+  whose global `np` is NumPy (a change that starts using NumPy in a module
+  that did not is then executed symbolically too)."""
+  import sys
+  import numpy as real_np
+  out = list(NP_MODULES)
+  for n, m in sorted(sys.modules.items()):
+    if (n.startswith('ai_edge_quantizer') and m is not None
+        and (getattr(m, '__file__', None) or '').startswith('/repo/')
+        and n not in out and not n.endswith('_test')
+        and not n.endswith('test_utils') and '.examples.' not in n
+        and getattr(m, 'np', None) is real_np):
+      out.append(n)
+  return out
+
+
 @contextlib.contextmanager
 def symbolic_numpy(modules=None):
   with contextlib.ExitStack() as st:
-    for m in modules or NP_MODULES:
+    for m in modules or np_modules():
       st.enter_context(rebind(m, 'np', symnp.PROXY))
     yield
 
